@@ -159,6 +159,46 @@ def run_pipe(server: Any, calls: list[str], method: str, md: bytes | None) -> di
             "status": None}
 
 
+def run_pipe_seq(server: Any, calls: list[str], seq: list[tuple[str, bytes | None]]) -> list[dict[str, Any]]:
+    """Several calls on ONE in-memory connection (request bytes back to back, as a client that pipelines would send them;
+    a stream call is followed by its immediately-closed input stream).  Returns one observation per call."""
+    import io
+
+    from vgi_rpc.rpc import PipeTransport
+
+    blob = b""
+    for method, md in seq:
+        blob += _req(server, method, md)
+        if method == "gen":
+            buf = io.BytesIO()
+            with pa.ipc.new_stream(buf, pa.schema([])) as _w:
+                pass
+            blob += buf.getvalue()
+    r, w = io.BytesIO(blob), io.BytesIO()
+    t = PipeTransport(r, w)
+    obs: list[dict[str, Any]] = []
+    for method, _md in seq:
+        calls.clear()
+        start = w.tell()
+        exc = None
+        try:
+            server.serve_one(t)
+        except BaseException as e:  # noqa: BLE001
+            exc = e
+        out = w.getvalue()[start:]
+        err = None
+        try:
+            for _sch, bs in rpcutil.read_all_streams(out) if out else []:
+                err = rpcutil.error_of(bs)
+                if err:
+                    break
+        except Exception as e:  # noqa: BLE001
+            err = {"type": "unreadable-response", "message": repr(e), "kind": None}
+        obs.append({"dispatched": bool(calls) or (method == "__describe__" and err is None and exc is None and bool(out)), "err": err,
+                    "escaped": repr(exc) if exc else None, "status": None, "dispatched_methods": list(calls)})
+    return obs
+
+
 def run_http(client: Any, calls: list[str], server: Any, method: str, md: bytes | None) -> dict[str, Any]:
     calls.clear()
     path = f"/{method}/init" if method == "gen" else f"/{method}"
@@ -365,6 +405,36 @@ def run(ctx: Any) -> None:
         for method in methods:
             check_dispatch(ctx, "pipe", sv, method, md, run_pipe(server, calls, method, md))
             check_dispatch(ctx, "http", sv, method, md, run_http(client, calls, server, method, md))
+    # sequences on ONE connection: a refused call (every refusal class, on a unary / stream / introspection method) must
+    # leave the gate's verdict for the FOLLOWING calls unchanged — each later call is dispatched iff its own version matches
+    sv = (1, 2, 3)
+    server, calls, client = get(sv)
+    bad_mds: list[bytes | None] = [None, b"2.0.0", b"0.9.9", b"1.3.0", b"1.2", b"1.2.03", b"\xff", b"garbage", b"1.2.3-rc1", b""]
+    good = b"1.2.9"
+    seqs: list[list[tuple[str, bytes | None]]] = []
+    for bm in bad_mds:
+        for m1 in methods:
+            for m2 in methods:
+                seqs.append([(m1, bm), (m2, good)])
+        seqs.append([("gen", bm), ("gen", bm), ("add", good), ("gen", good), ("add", bm), ("add", good)])
+    for _ in range(ctx.budget(20, 400)):
+        seqs.append([(rng.choice(methods), rng.choice(bad_mds + [good, good, b"1.2.0"])) for _ in range(rng.choice([2, 3, 5]))])
+    for seq in seqs:
+        for i, ((method, md), ob) in enumerate(zip(seq, run_pipe_seq(server, calls, seq))):
+            case = {"path": "pipe-seq", "server_version": _srv_text(sv), "seq": [[m, (x.hex() if x is not None else None)] for m, x in seq], "index": i}
+            want = spec_pass(sv, method, md)
+            ctx.case(case, nontrivial=True, tags=("path:pipe-seq", f"method:{method}", "spec:pass" if want else "spec:refuse"))
+            if ob["escaped"]:
+                ctx.fail(case, "C09:exception-escaped:pipe-seq", f"call {i} of a connection: exception escaped dispatch: {ob['escaped']}")
+                break
+            if ob["dispatched"] != want or (want and method != "__describe__" and ob["dispatched_methods"] != [method]):
+                ctx.fail(case, f"C09:dispatch-mismatch:pipe-seq:{'admitted' if ob['dispatched'] else 'refused'}",
+                         f"call {i} ({method}, client {md!r}) of one connection after {seq[:i]}: spec says "
+                         f"{'dispatch' if want else 'refuse'}, implementation dispatched {ob['dispatched_methods']} (error {ob['err']})")
+                break
+            if not want and (ob["err"] or {}).get("kind") != "protocol_version_mismatch":
+                ctx.fail(case, "C09:wrong-error-kind:pipe-seq", f"call {i}: refusal is not protocol_version_mismatch: {ob['err']}")
+                break
     # a service declaring no version never checks
     server, calls, client = get(None)
     for md in [None, b"1.2.3", b"garbage", b"\xff", b"9.9.9"]:
@@ -389,6 +459,17 @@ def replay(ctx: Any, case: dict[str, Any]) -> None:
         ctx.case(case)
         if impl != spec:
             ctx.fail(case, "C09:parse-accepts-noncanonical" if impl else "C09:parse-rejects-canonical", f"{impl} vs {spec}")
+        return
+    if case.get("path") == "pipe-seq":
+        sv3 = tuple(int(x) for x in case["server_version"].split("."))
+        server, _impl, calls = make_service(case["server_version"])
+        seq = [(m, bytes.fromhex(x) if x is not None else None) for m, x in case["seq"]]
+        for i, ((method, md), ob) in enumerate(zip(seq, run_pipe_seq(server, calls, seq))):
+            want = spec_pass(sv3, method, md)  # type: ignore[arg-type]
+            ctx.case(case)
+            if ob["escaped"] or ob["dispatched"] != want or (want and method != "__describe__" and ob["dispatched_methods"] != [method]):
+                ctx.fail(case, f"C09:dispatch-mismatch:pipe-seq:{'admitted' if ob['dispatched'] else 'refused'}", f"call {i}: {ob}")
+                return
         return
     sv = tuple(int(x) for x in case["server_version"].split(".")) if case["server_version"] else None
     server, _impl, calls = make_service(case["server_version"])
